@@ -536,3 +536,30 @@ class ReplaceStringApplyValue(Contract):
 
     def frame_ok(self, I, inp, obj, name):
         return False
+
+
+@register
+class SetFieldApply(_FieldsList):
+    """SetFieldTransformation.apply: the rule's field list becomes the configured list - as a list of ITS OWN (later add_field /
+    remove_field items edit the rule's list in place; the configuration must stay what it is for the next rule)"""
+    id = "C12.SetFieldTransformation.apply"
+    target = f"{FLD}:SetFieldTransformation.apply"
+    props = ("C12", "C15")
+    cls = "SetFieldTransformation"
+    cases = (("list2", True), ("list0", True))
+
+    def args(self, I, case):
+        inp = _FieldsList.args(self, I, case)
+        cfg = list(inp["fld"])
+        inp["self"].fields.pop("field", None)
+        inp["self"].fields["fields"] = cfg
+        inp["cfg"], inp["snap"] = cfg, list(cfg)
+        return inp
+
+    def post(self, I, inp, r):
+        got = inp["rule"].fields["fields"]
+        I.ctx.require(isinstance(got, list) and got == inp["snap"], "fields == the configured list")
+        I.ctx.require(got is not inp["cfg"] and inp["cfg"] == inp["snap"], "the rule gets a list of its own: editing it does not edit the transformation's configuration", kind="FRAME")
+
+    def frame_ok(self, I, inp, obj, name):
+        return obj is inp["rule"] and name == "fields"
